@@ -252,6 +252,10 @@ def check(model: Model, report: Report) -> None:
     report.rule("R20.2", "same for json.load failures (JSONDecodeError, UnicodeDecodeError) and for every JSONPathError subclass raised at evaluation time")
     report.rule("R20.4", "on success the only write to the output sink is json.dump(compile(query).find(json.load(file)).values(), args.output, indent=INDENT if --pretty else None); no exit, nothing on stderr")
     report.rule("R20.5", "the query is taken verbatim from -q, or from the query file stripped")
+    report.rule("R20.7", "the diagnostic is one line: no message of a JSONPathError the library constructs can contain LF/CR (lexer states path-sensitively; every other construction site by inference over the message expression: constants, !r, integers, enum names, function-name tokens)")
+    from . import _oneline
+
+    _oneline.check(model, report, "R20.7")
     report.assumptions += ["argparse behaviour and FileType handling are trusted", "json.load raises JSONDecodeError or UnicodeDecodeError for undecodable input (A1)"]
     report.not_decided += ["FileType('w') truncating the output file before validation; broken pipes; argparse errors"]
     fn = model.func("cli.handle_path_command")
